@@ -307,7 +307,11 @@ func (fc *FnCtx) evalBin(x *EBin, env *Env) Val {
 	case "||":
 		return boolVal(or(fc.evalBool(x.L, env), fc.evalBool(x.R, env)))
 	case "==>":
-		return boolVal(implies(fc.evalBool(x.L, env), fc.evalBool(x.R, env)))
+		l := fc.evalBool(x.L, env)
+		if l == "false" { // a statically false guard (intelems of a non-integer instance): the conclusion need not fit the instance
+			return boolVal("true")
+		}
+		return boolVal(implies(l, fc.evalBool(x.R, env)))
 	case "<==>":
 		return boolVal(fmt.Sprintf("(= %s %s)", fc.evalBool(x.L, env), fc.evalBool(x.R, env)))
 	}
@@ -499,6 +503,18 @@ func (fc *FnCtx) evalCall(x *ECall, env *Env) Val {
 			return Val{K: KPtr, T: ht, C: []string{v.C[0]}}
 		}
 		fc.fail("hdr of kind %d", v.K)
+	case "intelems":
+		// intelems(s): static - the elements of slice s are of an integer type (used by contracts of generic functions
+		// whose element-wise clauses only make sense for scalar instances)
+		v := fc.evalExpr(x.Args[0], env)
+		if v.T != nil {
+			if sl, ok := v.T.Underlying().(*types.Slice); ok {
+				if b, ok := sl.Elem().Underlying().(*types.Basic); ok && b.Info()&types.IsInteger != 0 {
+					return boolVal("true")
+				}
+			}
+		}
+		return boolVal("false")
 	case "sliceoff":
 		// sliceoff(x): offset of slice/string x inside its backing array
 		v := fc.evalExpr(x.Args[0], env)
